@@ -172,6 +172,25 @@ def judge(case, impl, model):
     v = roundtrip_oracle(case, impl)
     if v is not None and not (case.split()[1] == "9" and v.get("field") == 0):
         return v
+    if case.startswith("mc_build 24 ") and not impl.startswith(("ERR", "PANIC", "CRASH")):
+        # McGroupStatusAns (TS005): CID 0x01, status = NbTotalGroups (bits 6..4) | AnsGroupMask (bits 3..0), then one item
+        # (McGroupID, McAddr little-endian) per reported group -- whatever the order in which the setters were called
+        total, groups = 0, []
+        for a in case.split()[2:]:
+            f, v = a.split("=")
+            if f == "0":
+                total = int(v) & 7
+            elif ":" in v:
+                g, addr = (int(x) for x in v.split(":"))
+                groups.append((g, addr))
+        if groups and len({g for g, _ in groups}) == len(groups) and all(0 <= g <= 3 for g, _ in groups):
+            mask = 0
+            for g, _ in groups:
+                mask |= 1 << g
+            want = "01%02x" % ((total << 4) | mask) + "".join("%02x" % g + addr.to_bytes(4, "little").hex() for g, addr in groups)
+            if impl.split()[0] != want:
+                return {"kind": "McGroupStatusAns: NbTotalGroups / AnsGroupMask / items set through the creator are not what the built command carries "
+                                "(a setter disturbed a neighbouring field)", "built": impl.split()[0], "spec_output": want}
     if case.startswith("mc_build 17 "):
         # certification EchoIncPayloadAns: CID 0x08 followed by every request byte incremented by one (mod 256), up to 241 bytes
         req = bytes.fromhex(case.split("=x")[1])
